@@ -44,7 +44,10 @@ RULE = ("deterministic schedule enumeration: at every storage-event boundary of 
         "at boundary b=0..6 *inside* the storage-call sequence of one ix.reader() call so that its retry loop runs, and "
         "the Lean step machines mrun / xmrun (with recycling) predict generation, segments and the files "
         "(re)opened (non-trivial = the commits fired); a cold searcher (opened before, first read after each "
-        "transaction) exercises lazily opened files")
+        "transaction) exercises lazily opened files; searcher-api stream: sorted / reversed / grouped / term searches "
+        "(fields with and without a column) on a held searcher, a refresh chain whose per-searcher caches are warm, and "
+        "a fresh searcher, against the dictionary model, over random histories that include count-preserving commits "
+        "(replace k documents and merge)")
 ASSUMPTIONS = [
     "POSIX unlink-while-open / mmap keep the data of an open file readable (handles pin inodes)",
     "single-process schedules: reader steps run between two storage events of the writer, not inside one (true "
@@ -1133,6 +1136,191 @@ def _buffered_refresh(ctx, scratch):
             shutil.rmtree(base, ignore_errors=True)
 
 
+# ------------------------------------------------------------------------------------------------
+# searcher-level read API (sorted / grouped / term searches) of held, refreshed and fresh searchers.
+# The history streams above dump the *reader*; whatever a Searcher keeps per instance on top of its
+# reader (e.g. the document orders sorting.PostingCategorizer caches for fields without a column)
+# is only observable through Searcher.search().  Every searcher is probed (= its caches are warm)
+# before the commit, and the commits include count-preserving ones (replace k documents and merge:
+# the same doc_count()/doc_count_all(), other documents and another numbering).
+
+SEARCH_PROBES = ("sorted k", "sorted k reversed", "sorted g,k", "sorted n,k", "grouped g", "term g", "doc_count")
+
+
+def _search_probe(s):
+    from whoosh import query
+    every = query.Every()
+
+    def keys(res):
+        return [h["k"] for h in res]
+    out = {}
+    out["sorted k"] = keys(s.search(every, sortedby="k", limit=None))
+    out["sorted k reversed"] = keys(s.search(every, sortedby="k", reverse=True, limit=None))
+    out["sorted g,k"] = keys(s.search(every, sortedby=["g", "k"], limit=None))
+    out["sorted n,k"] = keys(s.search(every, sortedby=["n", "k"], limit=None))
+    res = s.search(every, groupedby="g", limit=None)
+    out["grouped g"] = sorted([g, sorted(s.stored_fields(d)["k"] for d in dl)] for g, dl in res.groups("g").items())
+    out["term g"] = [[g, sorted(keys(s.search(query.Term("g", g), limit=None)))] for g in T.WORDS[:3]]
+    out["doc_count"] = [s.doc_count(), len(out["sorted k"])]
+    return out
+
+
+def _search_model(docs):
+    ks = sorted(docs)
+    out = {}
+    out["sorted k"] = ks
+    out["sorted k reversed"] = ks[::-1]
+    out["sorted g,k"] = sorted(ks, key=lambda k: (docs[k]["g"], k))
+    out["sorted n,k"] = sorted(ks, key=lambda k: (docs[k]["n"], k))
+    groups = {}
+    for k in ks:
+        groups.setdefault(docs[k]["g"], []).append(k)
+    out["grouped g"] = sorted([g, v] for g, v in groups.items())
+    out["term g"] = [[g, groups.get(g, [])] for g in T.WORDS[:3]]
+    out["doc_count"] = [len(ks), len(ks)]
+    return out
+
+
+def _replace_txn(rng, state, compound, merge):
+    """A commit that keeps the number of documents: every operation replaces one live document
+    (update_document, or delete + add of a new key)."""
+    live = list(state["live"])
+    rng.shuffle(live)
+    ops = []
+    for k in live[:rng.randint(1, 3)]:
+        if rng.random() < 0.7:
+            ops.append(("update", T.gen_doc(rng, k)))
+        else:
+            ops.append(("delete", u"k%d" % k))
+            ops.append(("add", T.gen_doc(rng, state["next"])))
+            state["next"] += 1
+    if merge in ("optimize",):
+        state["tomb"] = []
+    return {"ops": ops, "merge": merge, "compound": compound, "outcome": "commit", "schema": None}
+
+
+def search_job(job):
+    try:
+        return _search_job(job)
+    except Exception as e:  # noqa
+        import traceback
+        return {"seed": job["seed"], "config": job["config"], "steps": 0, "bad": [
+            {"sig": "harness-step-raises", "txn": -1, "history": [], "expected": "history runs",
+             "observed": "%s: %s" % (T.errname(e), str(e)[:200]), "desc": traceback.format_exc()[-1500:]}]}
+
+
+def _search_job(job):
+    from whoosh import index
+    compound, mmap, ram = job["config"]
+    rng = random.Random(job["seed"])
+    base = tempfile.mkdtemp(prefix="c03q-", dir=job["scratch"])
+    bad = []
+    history = []
+    keys = []
+    searchers = []
+    try:
+        if ram:
+            st = T.TracingRamStorage()
+            st.tmpbase = base
+        else:
+            d = os.path.join(base, "ix")
+            os.makedirs(d)
+            st = T.TracingFileStorage(d, supports_mmap=mmap)
+        st.tracer.enabled = False
+        index.FileIndex.create(st, T.make_schema(), IX)
+        ix = index.FileIndex(st, indexname=IX)
+        docs = {}
+        state = {"next": 0, "live": []}
+        chain = ix.searcher()       # refreshed after every transaction
+        searchers.append(chain)
+        for ti in range(job["ntxn"]):
+            if ti == 0:
+                txn = T.gen_txn(rng, state, force={"compound": compound, "outcome": "commit", "schema": None,
+                                                   "merge": rng.choice(["nomerge", "default"]), "min_adds": 4})
+            elif ti % 2 == 1 and state["live"]:
+                merge = job["merge1"] if ti == 1 else rng.choice(["optimize", "default", "nomerge"])
+                txn = _replace_txn(rng, state, compound, merge)
+            else:
+                txn = T.gen_txn(rng, state, force={"compound": compound, "schema": None})
+            held = ix.searcher()
+            searchers.append(held)
+            held_before = _search_probe(held)
+            if ti:
+                _search_probe(chain)            # (a searcher in use: its caches are warm)
+            counts_old = (chain.doc_count_all(), chain.doc_count())
+            outcome = T.run_txn(ix, txn)
+            history.append(txn)
+            docs = T.model_apply(docs, txn)
+            state["live"] = sorted(int(k[1:]) for k in docs)
+            want = _search_model(docs)
+            held_after = _search_probe(held)
+            new = chain.refresh()
+            if new is not chain:
+                searchers.append(new)
+            chain = new
+            got = _search_probe(chain)
+            utd = chain.up_to_date()
+            with ix.searcher() as f:
+                fresh = _search_probe(f)
+            counts_new = (chain.doc_count_all(), chain.doc_count())
+            same_counts = outcome == "commit" and counts_new == counts_old and bool(txn["ops"])
+            keys.append((tuple(job["config"]), outcome, txn["merge"], same_counts, len(docs),
+                         tuple(op[0] for op in txn["ops"])))
+
+            def report(sig, expected, observed, desc=""):
+                bad.append({"sig": sig, "txn": ti, "history": list(history), "expected": expected,
+                            "observed": observed, "desc": desc})
+            for name in SEARCH_PROBES:
+                if fresh[name] != want[name]:
+                    report("ix.searcher():search-differs-from-committed-state:" + name.split()[0], want[name],
+                           fresh[name])
+                elif got[name] != want[name]:
+                    report("Searcher.refresh():search-differs-from-fresh-searcher:" + name.split()[0], want[name],
+                           got[name], "a searcher refreshed after the commit (up_to_date() = %r; document counts "
+                           "%r -> %r) answers %r differently from ix.searcher() on the same generation and from "
+                           "the committed documents" % (utd, counts_old, counts_new, name))
+                if held_after[name] != held_before[name]:
+                    report("held-searcher:search-changes-under-commit:" + name.split()[0], held_before[name],
+                           held_after[name])
+            if not utd and docs:
+                report("Searcher.refresh():not-up-to-date", True, utd)
+            held.close()
+            if bad:
+                break
+    finally:
+        for s in searchers:
+            try:
+                s.close()
+            except Exception:
+                pass
+        shutil.rmtree(base, ignore_errors=True)
+    return {"seed": job["seed"], "config": job["config"], "steps": len(history), "bad": bad, "keys": keys}
+
+
+def _searcher_api(ctx, scratch, only=None):
+    configs = [(c, m, r) for r in (False, True) for c in (True, False) for m in (True, False)]
+    jobs = []
+    if only is not None:
+        jobs.append({"seed": only["seed"], "config": tuple(only["config"]), "ntxn": only.get("txn", 4) + 1,
+                     "merge1": only.get("merge1", "optimize"), "scratch": scratch})
+    else:
+        for i in range(ctx.budget(8, 48)):
+            jobs.append({"seed": "%s:%s:searcher-api:%d" % (ID, ctx.seed, i), "config": configs[i % len(configs)],
+                         "ntxn": 5, "merge1": "default" if i % 4 == 3 else "optimize", "scratch": scratch})
+    for job, res in zip(jobs, ctx.pmap(search_job, jobs)):
+        ctx.stat("searcher-api:transactions", res["steps"])
+        for key in res.get("keys", []):
+            # non-trivial: the transaction committed operations (the refreshed searcher is a new object)
+            ctx.case(("searcher-api",) + key, nontrivial=key[1] == "commit" and bool(key[5]))
+            if key[3]:
+                ctx.stat("searcher-api:count-preserving-commits")
+        for b in res["bad"]:
+            cfg = job["config"]
+            case = {"stream": "searcher-api", "seed": job["seed"], "config": list(cfg), "merge1": job["merge1"],
+                    "txn": b["txn"], "history": b["history"]}
+            ctx.violation(b["sig"], case, b["expected"], b["observed"], b["desc"])
+
+
 def run(ctx):
     _corpus(ctx)
     with ctx.scratch() as scratch:
@@ -1140,6 +1328,7 @@ def run(ctx):
         # wall-clock bounds (from the start of the check): boosted budgets or a loaded machine mean
         # fewer cases, not a longer run
         _buffered_refresh(ctx, scratch)
+        _searcher_api(ctx, scratch)
         _races(ctx, scratch, deadline=ctx.t0 + (25 if quick else 200))
         _run_histories(ctx, "main", scratch, per_config=ctx.budget(2, 12), ntxn=4 if quick else 6,
                        deadline=ctx.t0 + (55 if quick else 480))
@@ -1182,6 +1371,10 @@ def _replay_case(ctx, rec, scratch):
     if case.get("stream") == "race-open":
         before = len(ctx.violations) + len(ctx.divergences)
         _races(ctx, scratch, only=case)
+        return len(ctx.violations) + len(ctx.divergences) > before
+    if case.get("stream") == "searcher-api":
+        before = len(ctx.violations) + len(ctx.divergences)
+        _searcher_api(ctx, scratch, only=case)
         return len(ctx.violations) + len(ctx.divergences) > before
     cfgs = {"%s/%s/%s" % ("compound" if c else "loose", "mmap" if m else "nommap", "ram" if r else "file"): (c, m, r)
             for c in (True, False) for m in (True, False) for r in (False, True)}
